@@ -20,7 +20,8 @@ def _first_pass(ctx, rr, where):
 
 def _isolated(ctx, binary, idx, timeout=900):
     out = os.path.join(ctx.tmp, f"iso-{vf.flavor_of(binary)}-{idx}.jsonl")
-    rr = vf.run_harness(binary, ["--seed", ctx.seed, "--from", idx, "--count", 1, "--out", out], timeout=timeout, out_file=out)
+    extra = ["--nested-start", 1] if int(idx) >= 1000000 else []
+    rr = vf.run_harness(binary, ["--seed", ctx.seed, "--from", idx, "--count", 1, "--out", out] + extra, timeout=timeout, out_file=out)
     cc.annotate(rr, ctx.seed)
     cc.filter_tsan(ctx, rr)
     return rr
@@ -41,23 +42,41 @@ def run(ctx):
             cnt = min(per, n - s)
             jobs.append(lambda b=b, s=s, cnt=cnt: cc.worker(ctx, b, ["--seed", ctx.seed], s, cnt,
                                                             5400 if thorough else 1500, "c05"))
+    # nested start() from callbacks runs in its own processes and its own index range: on a tree where it
+    # aborts the process (known finding) it must not take the other scenarios of a worker down with it
+    for fl in (["asan", "plain"] if thorough else ["asan"]):
+        n, w = (400, 4) if thorough else (48, 4)
+        per = n // w
+        for s in range(0, n, per):
+            jobs.append(lambda b=bins[(NAME, fl)], s=s, per=per: cc.worker(ctx, b, ["--seed", ctx.seed, "--nested-start", 1], 1000000 + s, per,
+                                                                         5400 if thorough else 1500, "c05ns"))
     deaths = []
     for rrs in vf.run_many(ctx, jobs):
         for rr in rrs:
             _first_pass(ctx, rr, f"({rr.flavor})")
+            for r in rr.records:   # a nested start() that ended the process cannot report its own counter
+                if r.get("t") == "stuck" and ":start-called-from-a-callback" in str(r.get("key")):
+                    ctx.obs("nested_start_from_callback_attempted")
+                if r.get("t") == "obs" and r.get("name") in ("nested_start_from_callback_returned", "nested_start_from_callback_threw_logic_error"):
+                    ctx.obs("nested_start_from_callback_attempted", r.get("n", 1))
             if hasattr(rr, "died_at"):
                 deaths.append(rr)
 
     # ---- a process that stopped because calls were stranded, or that died: run that iteration alone
-    seen = set()
+    seen, seen_keys, skipped = set(), set(), 0
     for rr in deaths:
         kind = cc.death_kind(rr)
         if kind == "sanitizer":
             continue  # the report itself is the violation; the worker resumed after that iteration
         tag = (rr.flavor, rr.died_at)
-        if tag in seen or len(seen) >= 10:
+        ks = frozenset(r.get("key") for r in rr.records if r.get("t") == "stuck")
+        if tag in seen or (ks and ks <= seen_keys):
+            continue  # one representative per distinct stranding/crash key is re-run alone
+        if len(seen) >= 24:
+            skipped += 1
             continue
         seen.add(tag)
+        seen_keys |= ks
         scn = rr.died_scn.get("scn", "?")
         keys1 = sorted({r.get("key") for r in rr.records if r.get("t") == "stuck"})
         r2 = None
@@ -79,10 +98,14 @@ def run(ctx):
             common = [k for k in keys1 if k in keys2]
             if common:
                 for k in common:
-                    ctx.violation(k, "a call was still blocked 15 s after teardown began (its own timeout is 60 s), again when the iteration ran alone",
-                                  dict(desc=rr.died_scn.get("desc"), _run=run_info))
+                    what = ("the process aborted (std::terminate/abort) inside this nested call, again when the iteration ran alone"
+                            if k.startswith("C05:crash:") else
+                            "a call was still blocked 15 s after teardown began (its own timeout is 60 s), again when the iteration ran alone")
+                    ctx.violation(k, what, dict(desc=rr.died_scn.get("desc"), _run=run_info))
             else:
                 ctx.inconcl(f"iteration {rr.died_at} ({scn}, {rr.flavor}): stranded calls {keys1} once, {keys2 or 'none'} when run alone")
+        elif kind == "exit-3":
+            ctx.inconcl(f"iteration {rr.died_at} ({scn}, {rr.flavor}): harness set-up failed (exit 3): {rr.err[-200:]}")
         else:
             if died2 and not r2.san_reports:
                 ctx.violation(f"C05:harness-process-died:{scn}:{kind}", f"iteration {rr.died_at} ({scn}, {rr.flavor}) ended with {kind}, again when run alone",
@@ -90,10 +113,14 @@ def run(ctx):
             elif not died2:
                 ctx.inconcl(f"iteration {rr.died_at} ({scn}, {rr.flavor}) ended with {kind} once and passed when run alone: {rr.err[-300:]}")
 
+    if skipped:
+        ctx.inconcl(f"{skipped} more processes died/stalled with keys not re-run alone (cap reached)")
     ctx.rule = ("one case = one teardown iteration: fresh Transport (TCP or UDP) + raw peers + callers parked in connectSync (black hole), "
                 "receiveSync and a setReadMode flush held in a slow data callback + racers entering those calls around the teardown moment "
                 "+ short-timeout 'edge' callers whose expiry is aimed at the teardown moment and who are held 0.2-5 ms after every other mutex release "
-                "(pthread_mutex_unlock interposer, asan/plain builds) + storm threads (send/close/addListener/connect/getStats) + one of 7 teardown kinds. distinct = hash(teardown kind, proto, "
+                "(pthread_mutex_unlock interposer, asan/plain builds) + storm threads (send/close/addListener/connect/getStats) + in 40 % of the non-self-destruct iterations callbacks (onClose, I/O-thread onData, "
+                "close observers, session-data cleanup) that call stop/send/close/connect/addListener/setReadMode/start/connectSync/receiveSync themselves "
+                "while teardown is under way + one of 7 teardown kinds. distinct = hash(teardown kind, proto, "
                 "cycles, which parked kinds were actually parked when teardown hit, how each blocked call returned, racers?, storm?, slow onClose?, cv delay?)")
     ctx.assumptions = [
         "a call still blocked 15 s after teardown began is stranded (parked callers use 60 s timeouts; the iteration is re-run alone before a verdict)",
@@ -112,6 +139,11 @@ def run(ctx):
            "send_false", "addListener_refused", "connect_refused", "condvar_prepark_delays",
            "connectSync_returned_ShuttingDown_parked", "receiveSync_returned_PeerClosed_parked", "receiveSync_returned_ShuttingDown_parked",
            "second_chunk_buffered_while_flusher_in_data_callback", "flusher_still_inside_onData_entered_before_stop_returned",
+           "reentry_iterations", "nested_stop_from_callback_returned", "nested_stop_issued_while_another_threads_teardown_drains",
+           "nested_send_from_callback_returned", "nested_close_from_callback_returned", "nested_connect_from_callback_returned",
+           "nested_addListener_from_callback_returned", "nested_start_from_callback_attempted",
+           "nested_setReadMode_from_callback_threw_logic_error", "nested_connectSync_from_callback_threw_logic_error",
+           "nested_receiveSync_from_callback_threw_logic_error",
            "edge_callers_started", "post_unlock_holds", "edge_connectSync_returned_Timeout", "edge_connectSync_returned_ShuttingDown",
            "edge_receiveSync_returned_Timeout", "teardown_began_with_connectSync_caller_past_its_expiry_not_yet_returned",
            "teardown_began_with_receiveSync_caller_past_its_expiry_not_yet_returned"]
